@@ -56,12 +56,39 @@ def run(tier):
         ctx = lines[start:at]
         c.report_failure("ring: recorded call/reply not allowed by RingBuffer.tla: " + summarize(ctx[-1] if ctx else ""),
                          {"rejected_at_line": at, "history": ctx, "trace": {"comp": "ring", "module": "RingTrace"}})
+    big(c)
     if not c.quick():
         selftest(c, lines)
     return c.finish(rule="one behaviour per edge of the RingImpl state graph (shortest call sequence to the edge's source "
                          "state + the edge's call), capacities %s, values %s (2 values at capacity 7), ReadN/Skip/At arguments -1..Cap+2, replayed on "
-                         "RingBuffer[int] and RingBuffer[*int]; plus %d recorded random traces of %d calls on capacities up to 1000"
+                         "RingBuffer[int] and RingBuffer[*int]; plus %d recorded random traces of %d calls on capacities up to 1000; plus "
+                         "recorded traces of the consecutive-integers workload on capacities 40..65537 with arguments landing on the "
+                         "physical end of the array, the fill level, the capacity and powers of two (RingBigTrace.tla)"
                          % (caps, vals, ntr, steps))
+
+
+def big(c):
+    """Large capacities (up to 65537): the consecutive-integers workload with summarised replies.  TLC first proves that the
+    interval contract RingBig!BigApply is RingBuffer!Apply summarised (Agree), then validates the recorded traces against it."""
+    import json
+    cfg = c.write_cfg("ring", "RingBig", constants={"MaxCap": 4 if c.quick() else 6, "MaxLo": 2}, invariants=["Agree"])
+    c.tlc("ring", "RingBig", cfg, workers=2, label="RingBig-Agree")
+    ntr = 24 if c.quick() else 400
+    trace = c.path("trace", "ring-big.ndjson")
+    c.run_vh(["drive", "ring", "-seed", c.seed, "-n", ntr, "-out", trace, "-x", "mode=big"], timeout=1500)
+    cfg = c.write_cfg("ring", "RingBigTrace", postcondition="Accepted")
+    ok, at, res = c.validate_trace("ring", "RingBigTrace", cfg, trace, timeout=1200)
+    lines = open(trace).read().splitlines()
+    if ok:
+        c.traces_validated += ntr
+        c.samples.append({"kind": "recorded large-capacity trace prefix accepted by RingBigTrace.tla", "events": lines[:8]})
+    else:
+        start = max(i for i in range(at) if '"op":"New"' in lines[i])
+        ctx = lines[start:at]
+        e = json.loads(ctx[-1])
+        what = "panicked" if "crash" in e else "reply not allowed by RingBuffer.tla"
+        c.report_failure("ring: large capacity: %s %s" % (e.get("op"), what),
+                         {"rejected_at_line": at, "history": ctx[:1] + ctx[-12:], "trace": {"comp": "ring", "module": "RingBigTrace"}})
 
 
 def summarize(line):
